@@ -32,7 +32,7 @@ def cases(tier, seed, prep=None):
     for base in (range(4) if q else range(40)):
         for who in "AB":
             for k in range(0, 520, 7 if q else 1):
-                out.append({"kind": "sweep", "seed": b + base, "close_at": k, "who": who, "stranger": base % 2 == 1})
+                out.append({"kind": "sweep", "seed": b + base, "close_at": k, "who": who, "stranger": base % 2 == 1, "dead_addr": base % 4 < 2})
     for i in range(60 if q else 2000):
         out.append({"kind": "oldpeer", "seed": b + 5000 + i})
     return out
@@ -67,6 +67,10 @@ def run_case(spec):
     world = World(spec["seed"])
     rng = world.work_rng
     r = world.reactor
+    if spec.get("dead_addr"):
+        # an address nobody answers on: connection attempts to it stay pending
+        world.local_addresses = world.local_addresses + ["10.0.0.66"]
+        r.unroutable.add("10.0.0.66")
     dp = DilatedPair(world, ping_interval=5.0, dilate_now=False, relay=False)
     gates = {n: rng.choice(["now", "key", "versions"]) for n in "AB"}
     started = {"A": False, "B": False}
@@ -159,8 +163,8 @@ def run_case(spec):
         v = app.close_results[0]
         if v not in ("happy", "LonelyError", "WrongPasswordError", "ServerError", "WelcomeError"):
             viol.append({"key": "C17/close-verdict/" + v, "msg": "%s closed with %s" % (who, v), "witness": wit()})
-        # let lingering teardown finish, then look at what this side still owns
-        sch.drain(20.0, 3000)
+        # let lingering teardown finish (it needs no virtual time), then look at what this side still owns
+        sch.drain(1.0, 3000)
         if mgr is not None:
             leaks = owned_leaks(world, dp, who, mgr)
             seen = set()
@@ -174,7 +178,7 @@ def run_case(spec):
     other = "B" if who == "A" else "A"
     dp.apps[other].close()
     sch.drain(300.0, 30000, until=lambda: dp.apps[other].closed)
-    sch.drain(20.0, 3000)
+    sch.drain(1.0, 3000)
     if not dp.apps[other].closed:
         viol.append({"key": "C17/peer-close-never-completes/manager=%s" % dp.mstate(other),
                      "msg": "%s (closing second, Manager %s) did not complete" % (other, dp.mstate(other)), "witness": wit()})
